@@ -8,6 +8,21 @@ CLAIMED = {
  "C02": dict(engine="E1", design="§5 C02", technique="bounded exhaustive product over enum shapes, real pipeline + per-language extractor vs serde reference model (all key facets)",
      text="Full product of 1–2 (quick) / 1–3 (thorough) variants × 8 payload kinds (incl. generic and recursive) × renames × 9 rename_all × tag/content pairs × attribute style × 6 languages × 2 configurations; every place a backend writes a variant name, the tag key or the content key (e.g. Swift ContainerCodingKeys + each decode/encode forKey, Go's three json tag sites) is compared with serde's value; one case per variant is required.",
      note="Trusted: vendored serde case.rs; extractor facet collection (negative control with a canned Swift file containing a wrong key). Keyword tag keys are left to C10."),
+ "C03": dict(engine="E1", design="§5 C03", technique="bounded exhaustive product over item sequences and skip patterns, real pipeline + extractor vs ground-truth item/member lists",
+     text="Items family: every sequence of 1–2 (quick) / 1–3 (thorough) items over 7 item kinds × annotated/un-annotated × module depth 0–2 × 6 languages; members family: all 27 skip patterns over three members × both skip spellings × 4 attribute styles × rename × 4 container kinds × 6 languages. The recovered definitions (minus Inner helpers) must equal the annotated items and the members the non-skipped members in source order; an inexpressible item (const in Kotlin/Swift/Scala) must produce an error.",
+     note="Trusted: the extractors' definition/member recovery (303 snapshot outputs + canned control). Bodies of items are fixed shapes; larger files are not enumerated."),
+ "C04": dict(engine="E1", design="§5 C04", technique="bounded exhaustive product over optional-ness features with a differential control member",
+     text="Full product of 5 base types × 6 Option/smart-pointer wrappers × 5 serde(default) spellings × 4 positions × 6 languages × 2 configurations; the optional marker is compared with `Option ∨ bare default` and the member's type with the type of a control member of the base type in the same definition.",
+     note="Trusted: per-backend optional idioms as listed in the property."),
+ "C05": dict(engine="E1", design="§5 C05", technique="bounded exhaustive enumeration of type expressions, real pipeline + type-tree extractor vs structural/category reference model",
+     text="All unary constructor chains (Vec, array, slice, Option, Box, &) of depth ≤ 2 (quick) / ≤ 4 (thorough) over 17 leaves, every smart-pointer name and path form, maps and user generics with chain arguments, const types; × 4 positions × 6 languages × 2 configurations × type-mapping tables (~1.3M executions thorough). The type text at the use site is parsed back to a tree and compared structurally; primitives are judged by JSON category and value range.",
+     note="Trusted: target primitive ranges from language references; TypeScript optionality is judged by C04, not here."),
+ "C09": dict(engine="E1", design="§5 C09", technique="bounded exhaustive product over reference shapes; Referenced ⊆ Defined computed from the parsed output",
+     text="Full product of 6 target kinds × serde(rename) on target × 13 reference positions (fields, containers, generic arguments, payloads, struct-variant fields, alias targets, self reference, generic-parameter positions) × serde(rename) on the referrer × 6 languages × 2 prefix configurations; every non-primitive name in a type tree, variant parent clause or Inner reference must be a definition of the same output, and every item must be defined as prefix + renamed name.",
+     note="Names recognised as target primitives/builtins/helper vocabulary are not treated as user references (helpers are C12's)."),
+ "C11": dict(engine="E1", design="§5 C11", technique="exhaustive enumeration of labelled digraphs rendered as programs; permutation and topological-order oracle on the recovered definition order",
+     text="Every labelled digraph with self loops on ≤ 3 nodes × 11 edge carriers, × every node-kind assignment (struct, two enum forms, alias, const) × serde-renamed node; every digraph on 4 nodes (acyclic only in quick; all 65 536 × 4 carriers in thorough); seven parametric families up to 12 nodes under every rotation of the labeling; for the five backends sharing the ordering.",
+     note="Graphs with 5+ nodes only from the named families."),
  "C13": dict(engine="E1", design="§5 C13", technique="bounded exhaustive enumeration of cfg expressions × target lists × attachment levels vs the documented rule evaluated on the generator's AST",
      text="All 10 015 cfg expressions of depth ≤ 3 over any/all/not with leaves target_os=a|b|c, feature, unix × all 16 target lists over {a,b,c,d} × 8 attachment levels × 2 attribute orders, pairs and triples of separate cfg attributes; thorough adds all 7.2M depth-4 expressions over a reduced leaf set × 7 lists. Presence of each guarded element is read from the real parser's result.",
      note="Trusted: the rule as stated in the property / docs; observation through public ParsedData fields. Levels not documented (tuple payloads) are not judged."),
